@@ -82,9 +82,9 @@ func cmdCheck(args []string) int {
 		fmt.Fprintln(os.Stderr, err)
 		return 2
 	}
-	timeout := 20
+	timeout := 60
 	if *tier == "thorough" {
-		timeout = 120
+		timeout = 300
 	}
 	workDir := filepath.Join(verifRoot, "work", id)
 	os.RemoveAll(workDir)
@@ -172,7 +172,7 @@ func cmdCheck(args []string) int {
 	var samples []map[string]interface{}
 	perSolver := map[string]int{}
 	solverSecs := map[string]float64{}
-	nObl, nDis, nCover, nCanary := 0, 0, 0, 0
+	nObl, nDis, nCover, nCanary, nCoverSat := 0, 0, 0, 0, 0
 	isCanary := map[*Obligation]bool{}
 	for _, c := range canaries {
 		isCanary[c.o] = true
@@ -184,6 +184,10 @@ func cmdCheck(args []string) int {
 		}
 		if o.Cover {
 			nCover++
+			if o.ok() {
+				nCoverSat++
+			}
+			continue
 		}
 		nObl++
 		if o.ok() {
@@ -213,7 +217,7 @@ func cmdCheck(args []string) int {
 		fmt.Printf("VIOLATION property=%s replay=%s obligation=%s no-failing-input-found\n", id, p, g.name)
 	}
 	for _, o := range all {
-		if isCanary[o] || o.ok() {
+		if isCanary[o] || !o.failed() {
 			continue
 		}
 		violations++
@@ -273,7 +277,7 @@ func cmdCheck(args []string) int {
 		level = "proof"
 	}
 	cov := map[string]interface{}{
-		"obligations": nObl, "discharged": nDis, "vacuity_covers": nCover, "known_finding_canaries": nCanary,
+		"obligations": nObl, "discharged": nDis, "vacuity_covers": nCover, "vacuity_covers_sat": nCoverSat, "known_finding_canaries": nCanary,
 		"checker_cmd":              fmt.Sprintf("bin/govc check %s --tier %s", id, *tier),
 		"trusted_base":             tb,
 		"functions_under_contract": funcs,
